@@ -29,8 +29,15 @@ Poly(i) == CASE i = 1 -> <<<<0, 0>>, <<4, 0>>, <<4, 4>>, <<0, 4>>>>             
              [] i = 4 -> <<<<0, 6>>, <<2, 6>>, <<2, 2>>, <<6, 2>>, <<6, 0>>, <<0, 0>>>>               \* L-shape, clockwise
              [] i = 5 -> <<<<0, 0>>, <<6, 0>>, <<3, 2>>, <<6, 6>>, <<0, 6>>>>                         \* concave dart
              [] i = 6 -> <<<<1, 0>>, <<5, 1>>, <<3, 5>>>>                                             \* triangle
+             [] i = 7 -> <<<<0, 0>>, <<2, 0>>, <<2, 6>>, <<0, 6>>>>                                   \* tall rectangle (reaches higher in y than its largest x)
+             [] i = 8 -> <<<<0, 0>>, <<6, 0>>, <<6, 2>>, <<0, 2>>>>                                   \* wide rectangle
+             [] i = 9 -> <<<<-3, -5>>, <<-1, -5>>, <<-1, -1>>, <<-3, -1>>>>                           \* rectangle at negative coordinates
+             [] i = 10 -> <<<<-2, -2>>, <<3, -1>>, <<1, 3>>, <<-3, 2>>>>                              \* quadrilateral around the origin
+             [] i = 11 -> <<<<0, 0>>, <<1, 0>>, <<1, 5>>, <<2, 5>>, <<2, 0>>, <<3, 0>>, <<3, 6>>, <<0, 6>>>>   \* tall inverted U (concave)
+NPolys == 11
 \* test points at half-integers <<2x, 2y>> (never on an edge of these polygons except where excluded below)
-HalfPts == {<<a, b>> : a \in {-1, 1, 3, 5, 7, 9, 11, 13}, b \in {-1, 1, 3, 5, 7, 9, 11, 13}}
+HalfVals == {-11, -9, -7, -5, -3, -1, 1, 3, 5, 7, 9, 11, 13}
+HalfPts == {<<a, b>> : a \in HalfVals, b \in HalfVals}
 \* crossing number with exact integer arithmetic: edge (p, q) is crossed by the ray to +x from point (X/2, Y/2)
 Crosses(p, q, X, Y) ==
     LET y1 == 2 * p[2]  y2 == 2 * q[2]  x1 == 2 * p[1]  x2 == 2 * q[1] IN
@@ -76,7 +83,7 @@ Cases ==
   \cup {[w |-> "VectorPeriodicTransform2D", p |-> 5, q |-> 25, x |-> x, y |-> y, prev |-> pv] : pv \in Prevs, x \in {-12, 7}, y \in {-5, 3}}
   \cup {[w |-> "VectorPeriodicTransform3D", p |-> 5, q |-> 25, s |-> 10, x |-> x, y |-> y, z |-> z, prev |-> pv] : pv \in Prevs, x \in {-12, 7}, y \in {-5}, z \in {-25, 25}}
   \cup {[w |-> "PeriodicToken", p |-> p, token |-> t] : p \in {5, 10}, t \in {"neg_tiny", "neg_zero", "huge", "neg_huge", "exact_multiple", "neg_exact_multiple", "just_below_period"}}
-  \cup {[w |-> "PolygonMask2D", poly |-> i, X |-> pt[1], Y |-> pt[2]] : i \in 1..6, pt \in HalfPts}
+  \cup {[w |-> "PolygonMask2D", poly |-> i, X |-> pt[1], Y |-> pt[2]] : i \in 1..NPolys, pt \in HalfPts}
   \cup {[w |-> "sample1d", lo |-> lo, hi |-> hi, n |-> n] : lo \in {-5}, hi \in {-5, 7}, n \in {1, 2, 3, 5}}
   \* sample counts for which lo + (n - 1) * fl((hi - lo) / (n - 1)) does not round back to hi: the last point is hi itself all the same
   \cup {[w |-> "sample1d", lo |-> 0, hi |-> 10, n |-> n] : n \in {50, 99, 104}} \cup {[w |-> "sample1d", lo |-> 3, hi |-> 9, n |-> 162]}
